@@ -23,7 +23,7 @@ extern MPT_STRUCT(node) *mpt_list_clone(const MPT_STRUCT(node) *src)
 			}
 			/* require empty or cloned subtree */
 			if (!src->children
-			    || !(cpy->children = mpt_list_clone(src->children))) {
+			    || (cpy->children = mpt_list_clone(src->children))) {
 				continue;
 			}
 		}
